@@ -166,6 +166,26 @@ size_t vg_moves;
 	 VG_SAME_RAW1(H, 10) && VG_SAME_RAW1(H, 11) && VG_SAME_RAW1(H, 12) && VG_SAME_RAW1(H, 13) && VG_SAME_RAW1(H, 14) && \
 	 VG_SAME_RAW1(H, 15) && VG_SAME_RAW1(H, 16) && VG_SAME_RAW1(H, 17) && VG_SAME_RAW1(H, 18) && VG_SAME_RAW1(H, 19) && \
 	 VG_SAME_RAW1(H, 20) && VG_SAME_RAW1(H, 21))
+/* raw bytes 22..31 (rest of the fixed part of a level-2/3 header), as far as the block had them on entry */
+#define VG_SAME_RAW_IF(H, i) (__CPROVER_old(vg_cap) <= (i) || VG_SAME_RAW1(H, i))
+#define VG_SAME_RAW22_31(H) \
+	(VG_SAME_RAW_IF(H, 22) && VG_SAME_RAW_IF(H, 23) && VG_SAME_RAW_IF(H, 24) && VG_SAME_RAW_IF(H, 25) && VG_SAME_RAW_IF(H, 26) && \
+	 VG_SAME_RAW_IF(H, 27) && VG_SAME_RAW_IF(H, 28) && VG_SAME_RAW_IF(H, 29) && VG_SAME_RAW_IF(H, 30) && VG_SAME_RAW_IF(H, 31))
+/* the first 24 raw bytes: everything in front of the first extended-header length field of every level */
+#define VG_SAME_RAW24(H) (VG_SAME_RAW22(H) && VG_SAME_RAW1(H, 22) && VG_SAME_RAW1(H, 23))
+#define VG_LOOP_RAW1(hp, i) (VG_RAW(hp)[i] == __CPROVER_loop_entry(VG_RAW(hp)[i]))
+#define VG_LOOP_RAW24(hp) \
+	(VG_LOOP_RAW1(hp, 0) && VG_LOOP_RAW1(hp, 1) && VG_LOOP_RAW1(hp, 2) && VG_LOOP_RAW1(hp, 3) && VG_LOOP_RAW1(hp, 4) && VG_LOOP_RAW1(hp, 5) && \
+	 VG_LOOP_RAW1(hp, 6) && VG_LOOP_RAW1(hp, 7) && VG_LOOP_RAW1(hp, 8) && VG_LOOP_RAW1(hp, 9) && VG_LOOP_RAW1(hp, 10) && VG_LOOP_RAW1(hp, 11) && \
+	 VG_LOOP_RAW1(hp, 12) && VG_LOOP_RAW1(hp, 13) && VG_LOOP_RAW1(hp, 14) && VG_LOOP_RAW1(hp, 15) && VG_LOOP_RAW1(hp, 16) && VG_LOOP_RAW1(hp, 17) && \
+	 VG_LOOP_RAW1(hp, 18) && VG_LOOP_RAW1(hp, 19) && VG_LOOP_RAW1(hp, 20) && VG_LOOP_RAW1(hp, 21) && VG_LOOP_RAW1(hp, 22) && VG_LOOP_RAW1(hp, 23))
+/* bytes 24..27 (the level-3 total length) are in front of the first extended header when offset >= 28 */
+#define VG_SAME_RAW28_IF(H, off) ((off) < 28 || (VG_SAME_RAW1(H, 24) && VG_SAME_RAW1(H, 25) && VG_SAME_RAW1(H, 26) && VG_SAME_RAW1(H, 27)))
+#define VG_LOOP_RAW28_IF(hp, off) ((off) < 28 || (VG_LOOP_RAW1(hp, 24) && VG_LOOP_RAW1(hp, 25) && VG_LOOP_RAW1(hp, 26) && VG_LOOP_RAW1(hp, 27)))
+/* ghost: which length rule of a level-2/3 decoder rejected the header (0 = none), set by woven ghost statements */
+int vg_rule;
+/* ghost: outcome of the latest decode_extended_headers call (set by woven ghost statements at its returns) */
+int vg_dx_ok;
 #define VG_SAME_RAW(H) \
 	(VG_SAME_RAW22(H) && (vg_R < __CPROVER_old(vg_cap) ==> VG_RAW(*(H))[vg_R] == __CPROVER_old(VG_RAW(*(H))[vg_R])))
 
